@@ -118,7 +118,12 @@ def make_copy(repo, edits, transform=None):
     dst = os.path.join(tmp, 'formulas')
     shutil.copytree(os.path.join(repo, 'formulas'), dst,
                     ignore=shutil.ignore_patterns('__pycache__', '*.pyc'))
-    if transform:
+    if transform and transform.startswith('patch:'):
+        p = subprocess.run(['patch', '-p1', '-s', '-i', transform[6:]], cwd=tmp,
+                           capture_output=True, text=True)
+        if p.returncode:
+            return tmp, 'inapplicable: seeded patch no longer applies'
+    elif transform:
         _transform(dst, transform)
     for rel, old, new in edits:
         path = os.path.join(tmp, rel)
@@ -198,6 +203,22 @@ def run_for_property(prop, repo, seed=0, jobs=None):
                          'property': prop, 'kind': 'benign', 'edits': [],
                          'transform': how, 'expect': None, 'clears': None,
                          'may_error': False})
+    # seeded changes (from independent sub-agents) this property's check catches
+    sdir = os.path.join(report.VERIF, 'seeded')
+    if os.path.isdir(sdir):
+        for sid in sorted(os.listdir(sdir)):
+            mp = os.path.join(sdir, sid, 'meta.json')
+            if not os.path.exists(mp):
+                continue
+            with open(mp) as f:
+                meta = json.load(f)
+            for d in meta.get('detected_by', []):
+                if d['check'] == prop and d.get('exit') == 1:
+                    variants.append({
+                        'id': 'seed-%s' % sid, 'property': prop, 'kind': 'break',
+                        'edits': [], 'transform': 'patch:' + os.path.join(
+                            sdir, sid, 'patch.diff'),
+                        'expect': None, 'clears': None, 'may_error': False})
     jobs = jobs or min(16, os.cpu_count() or 4)
     results = []
     with concurrent.futures.ThreadPoolExecutor(max_workers=jobs) as ex:
